@@ -17,6 +17,7 @@
   the property's input space against a long-run proximal-gradient oracle.
 -/
 import DfolsVerif.Properties.C01
+import DfolsVerif.Proofs.HCalls
 
 namespace Dfols
 namespace C06
@@ -59,6 +60,20 @@ theorem C06_args_passthrough (argsh argsprox : Nat) (cs : List Call) (hacc : acc
 
 example : accept 7 9 [.h 7, .prox 9, .h 7] = true := by decide
 example : accept 7 9 [.h 7, .prox 8] = false := by decide
+
+/-- **layer G, the pass-through clause** (decided over the generated table of every call of the regulariser in the package):
+    `h` is always called with one point and `*argsh` — the extra arguments reach it unchanged everywhere — and always at
+    `remove_scaling(·)` of an internal point, i.e. in the user's coordinates; the model value used for predicted reductions
+    evaluates it at the trial point `xopt + s` -/
+theorem C06_src_h_calls :
+    (∀ c ∈ Gen.hCalls, c.npos = 1 ∧ c.nkw = 0 ∧ (c.star = "self.argsh" ∨ c.star = "argsh") ∧
+      ((c.point ≠ "" ∧ (c.scaling = "self.scaling_changes" ∨ c.scaling = "scaling_changes")) ∨
+       (c.func = "util.py:eval_least_squares_with_regularisation" ∧ c.arg = "x"))) ∧
+    (∀ c ∈ Gen.hCalls, c.func = "util.py:model_value" → c.point = "xopt + s") ∧
+    ((∀ c ∈ Gen.proxCalls, c.2.1 = "argsprox" ∧ c.2.2 = 2) ∧ Gen.proxCalls ≠ [] ∧
+     (∀ w ∈ Gen.sfistaWiring, w.2.1 = "self.argsh" ∧ w.2.2.1 = "self.argsprox" ∧ w.2.2.2.1 = "self.h" ∧ w.2.2.2.2 = "self.prox_uh") ∧
+     Gen.sfistaWiring.length = 4) :=
+  ⟨HCalls.h_sees_user_coordinates, HCalls.model_value_h, HCalls.prox_args_pass_through⟩
 
 end C06
 end Dfols
